@@ -58,8 +58,20 @@ class G:
         self.n += 1
         return V('V%d' % self.n)
 
-    def data(self):
-        return self.rng.choice([A('a'), A('b'), A('q'), I(1), I(2), self.var(), C('f', self.var()), NIL])
+    def data(self, d=2):
+        r = self.rng.random()
+        if d <= 0 or r < 0.45:
+            return self.rng.choice([A('a'), A('b'), A('q'), I(1), I(2), self.var(), C('f', self.var()), NIL])
+        if r < 0.8:
+            # same names with different arities, shared prefixes: what = and \\= must tell apart
+            name = self.rng.choice(['f', 'f', 'g', 'point'])
+            n = self.rng.choice([1, 2, 3])
+            pre = [A('a'), A('b'), I(1)]
+            args = [pre[i] if self.rng.random() < 0.7 else self.data(d - 1) for i in range(n)]
+            return C(name, *args)
+        items = [self.rng.choice([A('a'), A('b'), I(1)]) if self.rng.random() < 0.7 else self.data(d - 1)
+                 for _ in range(self.rng.choice([1, 2, 3]))]
+        return L(items) if self.rng.random() < 0.8 else L(items, self.var())
 
     def leaf(self):
         r = self.rng.random()
